@@ -120,6 +120,16 @@ pub fn stream_cmp(out: &mut impl Write, seed: u64, budget: usize) {
         a[cs] = 0; b[cs] = 128; a[cs + 1] = 0x00; b[cs + 1] = 0x88;
         emit_cmp(out, vi, &a, &b);
         emit_maxd(out, vi);
+        // direct oracle (C08): the bound is attained by this pair, in both modes
+        with_variant!(vi, T => {
+            if let (Ok(ha), Ok(hb)) = (T::try_from(&a[..]), T::try_from(&b[..])) {
+                for m in 0..2u8 {
+                    if ha.compare_with_config(&hb, mode_of(m)) != T::max_distance(mode_of(m)) {
+                        writeln!(out, "ORACLE C08 max-distance-not-attained-by-the-extreme-pair cmp {} {} {}", vi, hex(&a), hex(&b)).unwrap();
+                    }
+                }
+            }
+        });
     }
     for i in 0..budget {
         let vi = i % 5;
